@@ -51,6 +51,21 @@ CHECKS = {
              "stripping variant not yet exercised",
         technique="TLA+ spec + TLC model checking + replay with disconnect/reestablish on real channels + TLC trace validation",
         design_ref="DESIGN.md 4.1, 5/C03"),
+    "C16": dict(
+        category="model_checking",
+        text="spec/PaymentStore (payments, attempts, error classes with the code's precedence, the documented status table) "
+             "is checked by TLC over its COMPLETE state space for 2 payments x 3 attempt ids x 12 attempt descriptors "
+             "(NoOverpay, StatusTruthful, AdmitOnlyWhenOpen, InitRefused, SucceededAbsorbing, FailedOnlyViaInit, "
+             "AttemptStable, OwnHashOnly); TLC-generated and seeded random histories are executed on the real KVStore "
+             "(bbolt) and SQLStore (SQLite) in one binary, every call's error class and the read-back state of all "
+             "payments are validated by TLC against the same spec for both backends (so a KV/SQL divergence rejects one "
+             "of them); 2-4 goroutine runs are accepted iff some linearization consistent with the call start/end stamps "
+             "is a behaviour of the spec.",
+        note="bbolt and SQLite only (Postgres/etcd unavailable offline); AMP/keysend attempts, routes and timestamps are not "
+             "modelled; refusals without sentinel errors are classified by 5 text patterns; known finding F14 (KV accepts "
+             "duplicate attempt ids) is reported as KNOWN-FINDING; F2 was repaired (9f47308)",
+        technique="TLA+ spec + TLC complete-state-space model checking + TLC trace validation of both backends incl. linearizability search",
+        design_ref="DESIGN.md 4.12, 5/C16, 10.3"),
     "C06": dict(
         category="model_checking",
         text="spec/Shachain is checked exhaustively by TLC for trees of height 4-5 (thorough: up to 8) incl. corrupted "
